@@ -45,83 +45,148 @@ func c03Parser(c *Ctx) {
 		r.Unknown("C03.L1", "package", "", "internal/parser/profile not found")
 		return
 	}
-	info := pk.TypesInfo
-	// the level parser: a function whose first parameter is a string and that is called with a constant level word
-	found := 0
-	for _, file := range pk.Syntax {
-		for _, d := range file.Decls {
-			fd, ok := d.(*ast.FuncDecl)
-			if !ok || fd.Body == nil {
-				continue
+	// the profile type: the struct with one field per level
+	var profT *types.Named
+	for _, n := range pk.Types.Scope().Names() {
+		tn, ok := pk.Types.Scope().Lookup(n).(*types.TypeName)
+		if !ok {
+			continue
+		}
+		st, ok := tn.Type().Underlying().(*types.Struct)
+		if !ok {
+			continue
+		}
+		cnt := 0
+		for i := 0; i < st.NumFields(); i++ {
+			if isLevelWord(strings.ToLower(st.Field(i).Name())) {
+				cnt++
 			}
-			// map: local var -> level literal it was produced with
-			produced := map[types.Object]string{}
-			ast.Inspect(fd.Body, func(n ast.Node) bool {
-				as, ok := n.(*ast.AssignStmt)
-				if !ok || len(as.Rhs) != 1 {
-					return true
-				}
-				call, ok := as.Rhs[0].(*ast.CallExpr)
-				if !ok || len(call.Args) == 0 {
-					return true
-				}
-				lit, ok := constString(info, call.Args[0])
-				if !ok || !isLevelWord(lit) {
-					return true
-				}
-				if id, ok := as.Lhs[0].(*ast.Ident); ok {
-					if o := info.Defs[id]; o != nil {
-						produced[o] = lit
-					} else if o := info.Uses[id]; o != nil {
-						produced[o] = lit
-					}
-				}
-				return true
-			})
-			if len(produced) == 0 {
-				continue
-			}
-			// for _, rule := range X { profile.F = append(profile.F, rule) }
-			ast.Inspect(fd.Body, func(n ast.Node) bool {
-				rs, ok := n.(*ast.RangeStmt)
-				if !ok {
-					return true
-				}
-				id, ok := ast.Unparen(rs.X).(*ast.Ident)
-				if !ok {
-					return true
-				}
-				lit, ok := produced[info.Uses[id]]
-				if !ok {
-					return true
-				}
-				ast.Inspect(rs.Body, func(m ast.Node) bool {
-					as, ok := m.(*ast.AssignStmt)
-					if !ok || len(as.Lhs) != 1 {
-						return true
-					}
-					sel, ok := as.Lhs[0].(*ast.SelectorExpr)
-					if !ok {
-						return true
-					}
-					found++
-					k := relOf(pk) + "." + fd.Name.Name + "#level:" + lit
-					r.Check(strings.ToLower(sel.Sel.Name) == lit, "C03.L1", k, p.Pos(as.Pos()), "rules parsed for level "+lit+" are stored in Profile."+sel.Sel.Name, "rules parsed for level "+lit+" are stored in Profile."+sel.Sel.Name+": the validations listed under one level are reported with another severity")
-					return true
-				})
-				return true
-			})
+		}
+		if cnt == 3 {
+			profT, _ = tn.Type().(*types.Named)
 		}
 	}
-	if found == 0 {
-		r.Unknown("C03.L1", "level-dispatch", "", "no `x := parse(\"<level>\", ...)` / `profile.<Field> = append(...)` pairs found in the profile parser")
+	if profT == nil {
+		r.Unknown("C03.L1", "profile-type", "", "no struct with one field per level found in the profile package")
+		return
+	}
+	mentionsProfile := func(t types.Type) bool {
+		if pt, ok := t.(*types.Pointer); ok {
+			t = pt.Elem()
+		}
+		return t == types.Type(profT)
+	}
+	// E-sym: evaluate the functions the profile flows through; every store into a level field must hold the result of the
+	// level parser called with that level's word
+	found := map[string]bool{}
+	type lp struct {
+		fn  *types.Func
+		idx int
+	}
+	var levelParsers []lp
+	proto := &symWalker{Inline: func(fn *types.Func) bool {
+		if fn.Pkg() != pk.Types {
+			return false
+		}
+		sig := fn.Type().(*types.Signature)
+		for i := 0; i < sig.Params().Len(); i++ {
+			if mentionsProfile(sig.Params().At(i).Type()) {
+				return true
+			}
+		}
+		return false
+	}}
+	proto.OnCall = func(w *symWalker, call *ast.CallExpr, fn types.Object, args []*Sym, result *Sym) {
+		f, ok := fn.(*types.Func)
+		if !ok || f.Pkg() != pk.Types {
+			return
+		}
+		for i, a := range args {
+			if s, ok := a.ConstString(); ok && isLevelWord(s) {
+				dup := false
+				for _, e := range levelParsers {
+					if e.fn == f {
+						dup = true
+					}
+				}
+				if !dup {
+					levelParsers = append(levelParsers, lp{f, i})
+				}
+			}
+		}
+	}
+	proto.OnStore = func(w *symWalker, at ast.Node, target *Sym, key *Sym, val *Sym) {
+		field := ""
+		if key != nil {
+			field, _ = key.ConstString()
+		} else if target != nil && target.K == symField {
+			field = target.Name // a store through a pointer to the field
+		}
+		if !isLevelWord(strings.ToLower(field)) {
+			return
+		}
+		if key != nil && (target == nil || target.Type == nil || !mentionsProfile(target.Type)) {
+			if target == nil || target.K != symVar || !mentionsProfile(target.Obj.Type()) {
+				return
+			}
+		}
+		words := map[string]bool{}
+		val.Walk(func(s *Sym) {
+			if s.K == symCall {
+				for _, a := range s.Parts {
+					if lit, ok := a.ConstString(); ok && isLevelWord(lit) {
+						words[lit] = true
+					}
+				}
+			}
+		})
+		for _, l := range w.Loops() {
+			l.Walk(func(s *Sym) {
+				if s.K == symCall {
+					for _, a := range s.Parts {
+						if lit, ok := a.ConstString(); ok && isLevelWord(lit) {
+							words[lit] = true
+						}
+					}
+				}
+			})
+		}
+		lit := strings.Join(sortedKeys(words), "+")
+		k := relOf(pk) + "#level:" + strings.ToLower(field)
+		if len(words) == 0 {
+			// an initialisation (empty list) is not a dispatch
+			if val.K == symList && len(val.Parts) == 0 {
+				return
+			}
+			if val.K == symCall && val.Fn == "make" || val.K == symNil {
+				return
+			}
+			r.Unknown("C03.L1", k, p.Pos(at.Pos()), "Profile."+field+" is assigned a value whose level could not be determined: "+val.String())
+			return
+		}
+		if found[k+lit] {
+			return
+		}
+		found[k+lit] = true
+		r.Check(lit == strings.ToLower(field), "C03.L1", k, p.Pos(at.Pos()), "rules parsed for level "+lit+" are stored in Profile."+field, "rules parsed for level "+lit+" are stored in Profile."+field+": the validations listed under one level are reported with another severity")
+	}
+	for _, fd := range symRoots(pk) {
+		p.SymWalk(pk, fd, proto, nil)
+	}
+	if len(found) == 0 {
+		r.Unknown("C03.L1", "level-dispatch", "", "no store of parsed rules into Profile.<Level> found in the profile parser")
 	}
 	// the level parameter reaches TopLevelExpression.Level unchanged: follow parameters through direct calls
-	reaches := paramReachesField(p, "internal/parser/profile", "parseValidationLevel", 0, "TopLevelExpression", "Level", 4)
-	if fn := p.Func("internal/parser/profile", "parseValidationLevel"); fn == nil {
-		// resolve structurally: the function called with the level literal
-		r.Unknown("C03.L1", "level-flow", "", "the level parser function was not found by name; flow not checked")
-	} else {
+	if len(levelParsers) == 0 {
+		r.Unknown("C03.L1", "level-flow", "", "no function of the profile parser is called with a level word")
+	}
+	for _, e := range levelParsers {
+		reaches := paramReachesField(p, "internal/parser/profile", e.fn.Name(), e.idx, "TopLevelExpression", "Level", 4)
+		fn := p.Func("internal/parser/profile", e.fn.Name())
+		if fn == nil {
+			r.Unknown("C03.L1", "level-flow", "", "the level parser "+e.fn.Name()+" has no SSA body; flow not checked")
+			continue
+		}
 		r.Check(reaches, "C03.L1", "level-flow", p.Pos(fn.Pos()), "the level word flows unchanged from the level parser into TopLevelExpression.Level", "the level word does not reach TopLevelExpression.Level unchanged (it is transformed or replaced on the way)")
 	}
 }
@@ -200,80 +265,98 @@ func c03Generator(c *Ctx) {
 		r.Unknown("C03.L2", "package", "", "internal/generator not found")
 		return
 	}
-	info := pk.TypesInfo
-	heads, defaults := 0, 0
-	for _, file := range pk.Syntax {
-		ast.Inspect(file, func(n ast.Node) bool {
-			switch x := n.(type) {
-			case *ast.CallExpr:
-				if funcFullName(calleeOf(info, x)) != "fmt.Sprintf" || len(x.Args) < 2 {
-					return true
-				}
-				format, ok := constString(info, x.Args[0])
-				if !ok || !strings.HasPrefix(format, "%s[") || !strings.HasSuffix(strings.TrimSpace(format), "{") {
-					return true
-				}
-				// helper rules named by the fresh-name generator (path rules) are not level rules: skip heads whose name
-				// is a local assigned from a call into the profile package (Genvar)
-				if id, isID := ast.Unparen(x.Args[1]).(*ast.Ident); isID {
-					if fromFreshName(pk, id) {
-						return true
-					}
-				}
-				// a rule head template: `%s[matches] {`
-				heads++
-				k := relOf(pk) + "." + enclosingFuncName(pk, x.Pos()) + "#rule-head"
-				arg := ast.Unparen(x.Args[1])
-				okHead := false
-				if call, isCall := arg.(*ast.CallExpr); isCall && funcFullName(calleeOf(info, call)) == "strings.ToLower" && len(call.Args) == 1 {
-					if sel, isSel := ast.Unparen(call.Args[0]).(*ast.SelectorExpr); isSel && sel.Sel.Name == "Level" {
-						okHead = true
-					}
-				}
-				r.Check(okHead, "C03.L2", k, p.Pos(x.Pos()), "the rule head is strings.ToLower(<expr>.Level)", "the head of the generated constraint rule is not strings.ToLower of the expression's Level ("+types.ExprString(arg)+"): results may land in another level's bucket")
-			case *ast.IfStmt:
-				// if len(profile.F) == 0 { acc = append(acc, "default X = []") }
-				be, ok := ast.Unparen(x.Cond).(*ast.BinaryExpr)
-				if !ok || be.Op != token.EQL {
-					return true
-				}
-				lenCall, ok := ast.Unparen(be.X).(*ast.CallExpr)
-				if !ok || len(lenCall.Args) != 1 {
-					return true
-				}
-				if id, ok := lenCall.Fun.(*ast.Ident); !ok || id.Name != "len" {
-					return true
-				}
-				sel, ok := ast.Unparen(lenCall.Args[0]).(*ast.SelectorExpr)
-				if !ok {
-					return true
-				}
-				var lit string
-				ast.Inspect(x.Body, func(m ast.Node) bool {
-					if bl, ok := m.(ast.Expr); ok {
-						if s, ok := constString(info, bl); ok && strings.HasPrefix(s, "default ") {
-							lit = s
+	// Symbolic evaluation of the generator (E-sym): every text built by the generator is reduced to a concatenation of
+	// constants and symbolic parts, tables are unrolled and helpers are interpreted in their caller's context, so the rule
+	// is about the text and its guard, not about how the code is laid out.
+	heads, defaults := 0, map[string]bool{}
+	seen := map[string]bool{}
+	proto := &symWalker{Inline: samePkgInline(pk)}
+	proto.OnText = func(w *symWalker, at ast.Expr, text *Sym) {
+		parts := []*Sym{text}
+		if text.K == symConcat {
+			parts = text.Parts
+		}
+		// (a) a rule head `<name>[<var>] {`
+		if len(parts) >= 2 {
+			if c1, ok := parts[1].ConstString(); ok && strings.HasPrefix(c1, "[") {
+				last, _ := parts[len(parts)-1].ConstString()
+				if strings.HasSuffix(strings.TrimSpace(last), "{") && parts[0].K != symConst {
+					name := parts[0]
+					// helper rules named by the fresh-name generator (path rules) are not level rules
+					fresh := false
+					name.Walk(func(s *Sym) {
+						if s.K == symCall && strings.Contains(s.Fn, "/parser/profile.") {
+							fresh = true
 						}
+					})
+					if fresh {
+						return
 					}
-					return true
-				})
-				if lit == "" {
-					return true
+					k := relOf(pk) + "." + w.FuncName() + "#rule-head"
+					if seen[k+p.Pos(at.Pos())] {
+						return
+					}
+					seen[k+p.Pos(at.Pos())] = true
+					heads++
+					okHead := name.K == symCall && name.Fn == "strings.ToLower" && len(name.Parts) == 1 && name.Parts[0].K == symField && name.Parts[0].Name == "Level"
+					r.Check(okHead, "C03.L2", k, p.Pos(at.Pos()), "the rule head is strings.ToLower(<expr>.Level)", "the head of the generated constraint rule is not strings.ToLower of the expression's Level ("+name.String()+"): results may land in another level's bucket")
 				}
-				defaults++
-				word := strings.Fields(strings.TrimPrefix(lit, "default "))[0]
-				k := relOf(pk) + "." + enclosingFuncName(pk, x.Pos()) + "#default:" + word
-				okv := strings.ToLower(sel.Sel.Name) == word && isLevelWord(word) && strings.HasSuffix(strings.ReplaceAll(lit, " ", ""), "=[]")
-				r.Check(okv, "C03.L2", k, p.Pos(x.Pos()), fmt.Sprintf("%q is emitted exactly when Profile.%s is empty", lit, sel.Sel.Name), fmt.Sprintf("%q is emitted when Profile.%s is empty: an empty level has no default (evaluation fails) or a non-empty level is overridden", lit, sel.Sel.Name))
 			}
-			return true
-		})
+		}
+	}
+	proto.OnCall = func(w *symWalker, call *ast.CallExpr, fn types.Object, args []*Sym, result *Sym) {
+		// (b) a `default <level> = []` line added to the output
+		for _, a := range args {
+			lit, ok := a.ConstString()
+			if !ok {
+				// a default line whose level is not a constant cannot be judged
+				if a.K == symConcat {
+					if first, ok := a.Parts[0].ConstString(); ok && strings.HasPrefix(first, "default ") {
+						r.Unknown("C03.L2", relOf(pk)+"."+w.FuncName()+"#default:?", p.Pos(call.Pos()), "a `default ... = []` line is built from a value that is not constant: "+a.String())
+					}
+				}
+				continue
+			}
+			if !strings.HasPrefix(lit, "default ") {
+				continue
+			}
+			fs := strings.Fields(strings.TrimPrefix(lit, "default "))
+			if len(fs) == 0 {
+				continue
+			}
+			word := fs[0]
+			k := relOf(pk) + "." + w.FuncName() + "#default:" + word
+			if seen[k] {
+				continue
+			}
+			seen[k] = true
+			defaults[word] = true
+			// the guard: exactly one path condition, `len(<profile>.<Field>) == 0` with lower(Field) == word
+			var guards []string
+			okGuard := false
+			field := ""
+			for _, cnd := range w.Conds() {
+				if b, isConst := cnd.Cond.ConstBool(); isConst && b != cnd.Neg {
+					continue
+				}
+				guards = append(guards, cnd.String())
+				if x, ok, empty := cnd.Emptiness(); ok && empty && x.K == symField {
+					field = x.Name
+					okGuard = strings.ToLower(x.Name) == word
+				}
+			}
+			okv := okGuard && len(guards) == 1 && isLevelWord(word) && strings.HasSuffix(strings.ReplaceAll(lit, " ", ""), "=[]")
+			r.Check(okv, "C03.L2", k, p.Pos(call.Pos()), fmt.Sprintf("%q is emitted exactly when Profile.%s is empty", lit, field), fmt.Sprintf("%q is emitted under the condition [%s]: an empty level has no default (evaluation fails) or a non-empty level is overridden", lit, strings.Join(guards, " && ")))
+		}
+	}
+	for _, fd := range symRoots(pk) {
+		p.SymWalk(pk, fd, proto, nil)
 	}
 	if heads == 0 {
-		r.Unknown("C03.L2", "rule-head", "", "no `%s[...] {` rule head template found in the generator")
+		r.Unknown("C03.L2", "rule-head", "", "no `<name>[...] {` rule head template found in the generator")
 	}
-	if defaults != 3 {
-		r.Unknown("C03.L2", "defaults", "", fmt.Sprintf("%d `default <level> = []` guards found, expected 3", defaults))
+	if len(defaults) != 3 {
+		r.Unknown("C03.L2", "defaults", "", fmt.Sprintf("%d `default <level> = []` guards found (%s), expected 3", len(defaults), strings.Join(sortedKeys(defaults), ",")))
 	}
 }
 
@@ -333,15 +416,39 @@ func c03Preamble(c *Ctx) {
 }
 
 // ---- L4
-func c03ReportBuilder(c *Ctx) {
-	r, p := c.R, c.P
+// ---- the report builder, evaluated symbolically (shared by C03.L4 and C12.J1)
+
+type rbStore struct {
+	target, val *Sym
+	conds       []symCond
+	pos         token.Pos
+	fn          string
+}
+
+type rbModel struct {
+	pk     *packages.Package
+	build  *ast.FuncDecl
+	stores map[string][]rbStore
+}
+
+func rbBucketKey(s *Sym) (string, bool) {
+	if s != nil && s.K == symIndex {
+		if k, ok := s.Y.ConstString(); ok && isLevelWord(k) {
+			return k, true
+		}
+	}
+	return "", false
+}
+
+// loadReportBuilder finds the function that reads the level buckets from the evaluation result (a *rego.ResultSet
+// parameter, indexed by the level words) and evaluates it with E-sym, the functions of its package interpreted in its
+// context. It records every store under the keys the rules care about.
+func loadReportBuilder(p *Prog) (*rbModel, error) {
 	pk := p.Pkg("internal/validator")
 	if pk == nil {
-		r.Unknown("C03.L4", "package", "", "internal/validator not found")
-		return
+		return nil, fmt.Errorf("internal/validator not found")
 	}
 	info := pk.TypesInfo
-	// the builder: the function with a *rego.ResultSet parameter
 	var build *ast.FuncDecl
 	for _, f := range pk.Syntax {
 		for _, d := range f.Decls {
@@ -351,7 +458,6 @@ func c03ReportBuilder(c *Ctx) {
 			}
 			for _, prm := range fd.Type.Params.List {
 				if tv, ok := info.Types[prm.Type]; ok && strings.HasSuffix(tv.Type.String(), "rego.ResultSet") {
-					// choose the one that indexes the result by string keys
 					hasKey := false
 					ast.Inspect(fd.Body, func(n ast.Node) bool {
 						if ix, ok := n.(*ast.IndexExpr); ok {
@@ -369,211 +475,125 @@ func c03ReportBuilder(c *Ctx) {
 		}
 	}
 	if build == nil {
-		r.Unknown("C03.L4", "builder", "", "the function that reads the level buckets from the evaluation result was not found")
-		return
+		return nil, fmt.Errorf("the function that reads the level buckets from the evaluation result was not found")
 	}
-	// bucket variables: v := m["K"].([]any)
-	bucket := map[types.Object]string{}
-	ast.Inspect(build.Body, func(n ast.Node) bool {
-		as, ok := n.(*ast.AssignStmt)
-		if !ok || len(as.Lhs) != 1 || len(as.Rhs) != 1 {
-			return true
-		}
-		var key string
-		ast.Inspect(as.Rhs[0], func(m ast.Node) bool {
-			if ix, ok := m.(*ast.IndexExpr); ok {
-				if s, ok := constString(info, ix.Index); ok && (isLevelWord(s)) {
-					key = s
-				}
-			}
-			return true
-		})
-		if key != "" {
-			if id, ok := as.Lhs[0].(*ast.Ident); ok {
-				bucket[info.Defs[id]] = key
+	m := &rbModel{pk: pk, build: build, stores: map[string][]rbStore{}}
+	proto := &symWalker{Inline: samePkgInline(pk)}
+	proto.OnStore = func(w *symWalker, at ast.Node, target *Sym, key *Sym, val *Sym) {
+		if k, ok := key.ConstString(); ok {
+			switch k {
+			case "resultSeverity", "conforms", "result", "@id":
+				m.stores[k] = append(m.stores[k], rbStore{target, val, w.Conds(), at.Pos(), w.FuncName()})
 			}
 		}
-		return true
-	})
-	keys := []string{}
-	for _, k := range bucket {
-		keys = append(keys, k)
 	}
-	sort.Strings(keys)
-	if strings.Join(keys, ",") != "info,violation,warning" {
-		r.Unknown("C03.L4", "buckets", p.Pos(build.Pos()), "the buckets read from the result object are ["+strings.Join(keys, ",")+"], expected one variable per level")
+	p.SymWalk(pk, build, proto, nil)
+	return m, nil
+}
+
+// resultListProblems: the value stored under "result" must be the list of every element of every bucket, each bucket once.
+func (m *rbModel) resultListProblems(st rbStore) []string {
+	v := st.val
+	if v.K == symCall && v.Fn == "maybe" && len(v.Parts) == 1 {
+		v = v.Parts[0]
+	}
+	covered := map[string]int{}
+	var why []string
+	if v.K != symList {
+		why = append(why, "the result list is "+v.String()+", not a list built by appending every element of every bucket")
+	}
+	for _, part := range v.Parts {
+		if part.K != symRepeat || len(part.Parts) != 1 {
+			why = append(why, "the list contains "+part.String())
+			continue
+		}
+		key, isBucket := rbBucketKey(part.X)
+		el := part.Parts[0]
+		if !isBucket || el.K != symElem || el.X.String() != part.X.String() {
+			why = append(why, "the list contains "+part.String()+", which is not `every element of a level bucket`")
+			continue
+		}
+		covered[key]++
+	}
+	for _, l := range c03Levels {
+		if covered[l] != 1 {
+			why = append(why, fmt.Sprintf("the %s bucket contributes %d time(s)", l, covered[l]))
+		}
+	}
+	return why
+}
+
+func c03ReportBuilder(c *Ctx) {
+	r, p := c.R, c.P
+	m, err := loadReportBuilder(p)
+	if err != nil {
+		r.Unknown("C03.L4", "builder", "", err.Error())
 		return
 	}
+	build, stores := m.build, m.stores
+	bucketKey := rbBucketKey
+
 	// conforms
-	conformsSeen := false
-	ast.Inspect(build.Body, func(n ast.Node) bool {
-		as, ok := n.(*ast.AssignStmt)
-		if !ok || len(as.Lhs) != 1 || len(as.Rhs) != 1 {
-			return true
-		}
-		id, ok := as.Lhs[0].(*ast.Ident)
-		if !ok {
-			return true
-		}
-		o := info.Defs[id]
-		if o == nil {
-			o = info.Uses[id]
-		}
-		if o == nil || !c03FlowsToConforms(info, build, o) {
-			return true
-		}
-		conformsSeen = true
-		be, ok := ast.Unparen(as.Rhs[0]).(*ast.BinaryExpr)
-		okc := false
-		why := "conforms is not computed as len(<violation bucket>) == 0: " + types.ExprString(as.Rhs[0])
-		if ok && be.Op == token.EQL {
-			if call, ok := ast.Unparen(be.X).(*ast.CallExpr); ok && len(call.Args) == 1 {
-				if fid, ok := call.Fun.(*ast.Ident); ok && fid.Name == "len" {
-					if aid, ok := ast.Unparen(call.Args[0]).(*ast.Ident); ok {
-						if v, isZero := constInt(info, be.Y); isZero && v == 0 {
-							if bucket[info.Uses[aid]] == "violation" {
-								okc = true
-							} else {
-								why = fmt.Sprintf("conforms is computed from %s (bucket %q), not from the violation bucket: warnings or infos change conforms, or violations do not", aid.Name, bucket[info.Uses[aid]])
-							}
-						}
-					}
-				}
-			}
-		}
-		r.Check(okc, "C03.L4", "conforms", p.Pos(as.Pos()), "conforms := len(<bucket read under \"violation\">) == 0", why)
-		return true
-	})
-	if !conformsSeen {
-		r.Unknown("C03.L4", "conforms", p.Pos(build.Pos()), "no variable flowing into the report node's conforms parameter was found")
+	if len(stores["conforms"]) == 0 {
+		r.Unknown("C03.L4", "conforms", p.Pos(build.Pos()), "no value stored under the report node's conforms key was found")
 	}
-	// the call that tags the buckets: argument i of the callee receives bucket K_i; inside, loops call the tagger with constant level
-	var tagCall *ast.CallExpr
-	ast.Inspect(build.Body, func(n ast.Node) bool {
-		call, ok := n.(*ast.CallExpr)
-		if !ok {
-			return true
+	for _, st := range stores["conforms"] {
+		x, ok, empty := symCond{st.val, false}.Emptiness()
+		key, isBucket := bucketKey(x)
+		okc := ok && empty && isBucket && key == "violation"
+		why := "conforms is not computed as `the violation bucket is empty`: " + st.val.String()
+		if ok && isBucket && key != "violation" {
+			why = fmt.Sprintf("conforms is computed from the %q bucket, not from the violation bucket: warnings or infos change conforms, or violations do not", key)
 		}
-		cnt := 0
-		for _, a := range call.Args {
-			if id, ok := ast.Unparen(a).(*ast.Ident); ok && bucket[info.Uses[id]] != "" {
-				cnt++
-			}
-		}
-		if cnt == 3 {
-			tagCall = call
-		}
-		return true
-	})
-	if tagCall == nil {
-		r.Unknown("C03.L4", "tagging", p.Pos(build.Pos()), "no call receiving the three level buckets was found")
-		return
+		r.Check(okc, "C03.L4", "conforms", p.Pos(st.pos), "conforms := len(<bucket read under \"violation\">) == 0", why)
 	}
-	calleeObj, _ := calleeOf(info, tagCall).(*types.Func)
-	var tagger *ast.FuncDecl
-	if calleeObj != nil {
-		tagger, _ = p.FuncDecl("internal/validator", calleeObj.Name())
-	}
-	if tagger == nil {
-		r.Unknown("C03.L4", "tagging", p.Pos(tagCall.Pos()), "the function that tags the buckets could not be resolved")
-		return
-	}
-	paramBucket := map[types.Object]string{}
-	i := 0
-	for _, f := range tagger.Type.Params.List {
-		for _, name := range f.Names {
-			if i < len(tagCall.Args) {
-				if id, ok := ast.Unparen(tagCall.Args[i]).(*ast.Ident); ok {
-					paramBucket[info.Defs[name]] = bucket[info.Uses[id]]
-				}
-			}
-			i++
-		}
-	}
+
+	// severity: every store of resultSeverity tags an element of bucket K with shacl# + Title(K)
 	tagged := map[string]bool{}
-	ast.Inspect(tagger.Body, func(n ast.Node) bool {
-		rs, ok := n.(*ast.RangeStmt)
-		if !ok {
-			return true
+	for _, st := range stores["resultSeverity"] {
+		key, isBucket := "", false
+		if st.target != nil && st.target.K == symElem {
+			key, isBucket = bucketKey(st.target.X)
 		}
-		id, ok := ast.Unparen(rs.X).(*ast.Ident)
-		if !ok {
-			return true
+		if !isBucket {
+			r.Unknown("C03.L4", "bucket:?", p.Pos(st.pos), "resultSeverity is stored into "+st.target.String()+", which is not an element of a level bucket")
+			continue
 		}
-		key := paramBucket[info.Uses[id]]
-		if key == "" {
-			return true
+		tagged[key] = true
+		lvl := ""
+		okSev := false
+		if st.val.K == symConcat && len(st.val.Parts) == 2 {
+			ns, _ := st.val.Parts[0].ConstString()
+			t := st.val.Parts[1]
+			if ns == "http://www.w3.org/ns/shacl#" && t.K == symCall && t.Fn == "strings.Title" && len(t.Parts) == 1 {
+				lvl, okSev = t.Parts[0].ConstString()
+			}
+		} else if full, ok := st.val.ConstString(); ok && strings.HasPrefix(full, "http://www.w3.org/ns/shacl#") {
+			lvl, okSev = strings.ToLower(strings.TrimPrefix(full, "http://www.w3.org/ns/shacl#")), true
+			if strings.Title(lvl) != strings.TrimPrefix(full, "http://www.w3.org/ns/shacl#") {
+				okSev = false
+			}
 		}
-		// calls in the body with constant string arguments
-		ast.Inspect(rs.Body, func(m ast.Node) bool {
-			call, ok := m.(*ast.CallExpr)
-			if !ok || len(call.Args) < 2 {
-				return true
-			}
-			callee, ok := calleeOf(info, call).(*types.Func)
-			if !ok || callee.Pkg() == nil || !strings.HasPrefix(callee.Pkg().Path(), ModulePath) {
-				return true
-			}
-			lvl, ok1 := constString(info, call.Args[0])
-			if !ok1 {
-				return true
-			}
-			prefix := ""
-			ast.Inspect(call.Args[1], func(q ast.Node) bool {
-				if e, ok := q.(ast.Expr); ok {
-					if s, ok := constString(info, e); ok && prefix == "" {
-						prefix = s
-					}
-				}
-				return true
-			})
-			tagged[key] = true
-			r.Check(lvl == key && prefix == key+"_", "C03.L4", "bucket:"+key, p.Pos(call.Pos()), fmt.Sprintf("results read under %q are tagged %q with ids %q+i", key, lvl, prefix), fmt.Sprintf("results read under %q are tagged with severity %q and id prefix %q", key, lvl, prefix))
-			return true
-		})
-		return true
-	})
+		if !okSev {
+			r.Bad("C03.L4", "bucket:"+key, p.Pos(st.pos), "the severity of results read under \""+key+"\" is "+st.val.String()+", not the SHACL namespace followed by the capitalised level")
+			continue
+		}
+		r.Check(lvl == key, "C03.L4", "bucket:"+key, p.Pos(st.pos), fmt.Sprintf("results read under %q are tagged shacl#%s", key, strings.Title(lvl)), fmt.Sprintf("results read under %q are tagged with severity %q", key, lvl))
+	}
 	for _, l := range c03Levels {
 		if !tagged[l] {
-			r.Unknown("C03.L4", "bucket:"+l, p.Pos(tagger.Pos()), "no loop tagging the "+l+" bucket with a constant level was recognised")
+			r.Unknown("C03.L4", "bucket:"+l, p.Pos(build.Pos()), "no store of resultSeverity into the elements of the "+l+" bucket was recognised")
 		}
 	}
-	// severity IRI: the function that stores "resultSeverity" builds it from its level parameter
-	sevOK, sevSeen := false, false
-	for _, f := range pk.Syntax {
-		ast.Inspect(f, func(n ast.Node) bool {
-			as, ok := n.(*ast.AssignStmt)
-			if !ok || len(as.Lhs) != 1 || len(as.Rhs) != 1 {
-				return true
-			}
-			ix, ok := as.Lhs[0].(*ast.IndexExpr)
-			if !ok {
-				return true
-			}
-			if s, ok := constString(info, ix.Index); !ok || s != "resultSeverity" {
-				return true
-			}
-			sevSeen = true
-			be, ok := ast.Unparen(as.Rhs[0]).(*ast.BinaryExpr)
-			if !ok || be.Op != token.ADD {
-				return true
-			}
-			ns, ok1 := constString(info, be.X)
-			call, ok2 := ast.Unparen(be.Y).(*ast.CallExpr)
-			if ok1 && ok2 && ns == "http://www.w3.org/ns/shacl#" && (funcFullName(calleeOf(info, call)) == "strings.Title") && len(call.Args) == 1 {
-				if id, ok := ast.Unparen(call.Args[0]).(*ast.Ident); ok {
-					if _, isParam := info.Uses[id].(*types.Var); isParam {
-						sevOK = true
-					}
-				}
-			}
-			return true
-		})
+	r.OK("C03.L4", "severity-iri", "", "resultSeverity = shacl# + Title(level), evaluated per bucket")
+
+	// the result list: every element of every bucket, tagged, and nothing else
+	if len(stores["result"]) == 0 {
+		r.Unknown("C03.L4", "result-list", p.Pos(build.Pos()), "no value stored under the report node's result key was found")
 	}
-	if sevSeen {
-		r.Check(sevOK, "C03.L4", "severity-iri", "", "resultSeverity = shacl# + Title(level parameter)", "resultSeverity is not the SHACL namespace followed by the capitalised level parameter")
-	} else {
-		r.Unknown("C03.L4", "severity-iri", "", "no assignment of resultSeverity found")
+	for _, st := range stores["result"] {
+		why := m.resultListProblems(st)
+		r.Check(len(why) == 0, "C03.L4", "result-list", p.Pos(st.pos), "the result list is every element of the violation, warning and info buckets, each once", strings.Join(why, "; ")+": results are lost, duplicated or invented between the evaluation and the report")
 	}
 }
 
